@@ -1267,8 +1267,8 @@ def describe(prop):
                   'plain container of the same logical bytes; peers served through the stream_loader seam. Enumerated per image: identity, gABI at 3 '
                   'levels, legacy .zdebug (all sections / only shrinking sections), split + debug link (peer plain/gABI/legacy), link without follow/loader, '
                   'link on a non-stripped file, declared-size faults (4 gABI, 2 legacy), checksum faults (wrong file, flipped byte, truncated peer, damaged field), '
-                  '4 presence configurations, 6 supplementary-link configurations on the sup pairs; plus seeded compositions (section subsets, levels, '
-                  'deltas, link names). Non-trivial = every configuration other than identity; distinct by (image, configuration, parameters)'),
+                  '4 presence configurations, 6 supplementary-link configurations on the sup pairs (also walked in lockstep and on a second DWARFInfo), further get_dwarf_info() calls on the same ELFFile for relocatable images; plus seeded compositions (section subsets, levels, '
+                  'deltas, link names, view options) and seeded synthetic units stored in one file and dwz-style behind a supplementary link (own writer, entries compared with each other and with what was encoded). Non-trivial = every configuration other than identity; distinct by (image, configuration, parameters)'),
             components=dict(real=['elftools.elf.elffile (get_dwarf_info, has_dwarf_info, debug link / supplementary handling, legacy decompression)',
                                   'elftools.elf.sections (gABI decompression)', 'all of elftools.dwarf as reached by the view dump', 'zlib, binascii'],
                             stub=['the OS file objects of the main image and of every linked peer (SimStream)', 'open()-based loaders (SimFS.loader)',
